@@ -42,6 +42,27 @@ theorem block_names_decodable :
     osmMarshalXMLNames.head? = some "osm" ∧ changeMarshalXMLNames.head? = some "osmChange" ∧
     discussionMarshalXMLNames = ["comment"] ∧ (decodableChildren "ChangesetDiscussion") = ["comment"] := by decide
 
+/-- the call structure of the custom container marshalers, statement by statement: `<osm>` wraps
+    `marshalInnerXML`; `<osmChange>` writes its three blocks, each through `marshalInnerChange`, which wraps the
+    same `marshalInnerXML`; a diff action writes its own elements and the `old`/`new` wrappers the same way — so the
+    names proved decodable above are what every container writes, and nothing else writes a container -/
+theorem container_call_structure :
+    osmMarshalXMLCalls = ["e.EncodeToken(start)", "o.marshalInnerXML(e)", "e.EncodeToken(start.End())"] ∧
+    changeMarshalXMLCalls = ["e.EncodeToken(start)", "marshalInnerChange(e, \"create\", c.Create)",
+      "marshalInnerChange(e, \"modify\", c.Modify)", "marshalInnerChange(e, \"delete\", c.Delete)", "e.EncodeToken(start.End())"] ∧
+    marshalInnerChangeCalls = ["e.EncodeToken(t)", "o.marshalInnerXML(e)", "e.EncodeToken(t.End())"] ∧
+    actionMarshalXMLCalls = ["e.EncodeToken(start)", "a.OSM.marshalInnerElementsXML(e)", "marshalInnerChange(e, \"old\", a.Old)",
+      "marshalInnerChange(e, \"new\", a.New)", "e.EncodeToken(start.End())"] ∧
+    marshalInnerElementsXMLCalls = ["e.Encode(o.Nodes)", "e.Encode(o.Ways)", "e.Encode(o.Relations)"] := by decide
+
+/-- the types that replace the reflection codec by a method of their own are exactly these (XML: the containers,
+    the changeset discussion, note dates, and Bounds, which only renames its element); any other type is written
+    and read from its struct tags alone, as the schema model assumes -/
+theorem custom_xml_methods_pinned :
+    customMethods.filter (fun m => "XML".toList.isSuffixOf m.toList) =
+      ["Action.MarshalXML", "Action.UnmarshalXML", "Bounds.MarshalXML", "Change.MarshalXML", "ChangesetDiscussion.MarshalXML",
+       "Date.MarshalXML", "Date.UnmarshalXML", "OSM.MarshalXML"] := by decide
+
 /-! ## the attribute part of every record round-trips -/
 
 theorem find_attr_of_nodup (fs : List Field) (r : Rec) (f : Field)
